@@ -264,6 +264,37 @@ struct VGroupP : Profile {
             }
             ctx.probe("getnext-checked");
         }
+        {
+            // Vgetvgroups on a vgroup: the sub-vgroups it counts, in member order; a window (start, n) is that part of the
+            // whole list, and the count form agrees with it
+            uint16 all[64], win[64];
+            intn   na = Vgetvgroups(vkey, 0, 64, all);
+            if (na == FAIL)
+                ctx.fail("member-mismatch", "member-mismatch:getvgroups", strf("Vgetvgroups(vgroup %d, 0, 64) failed (%s)", (int)m.ref, when));
+            size_t pos = 0; // the list is a subsequence of the vgroup members
+            for (intn q = 0; q < na && q < 64; q++) {
+                while (pos < m.mem.size() && !(m.mem[pos].first == DFTAG_VG && (uint16)m.mem[pos].second == all[q]))
+                    pos++;
+                if (pos++ >= m.mem.size())
+                    ctx.fail("member-mismatch", "member-mismatch:getvgroups", strf("Vgetvgroups(vgroup %d) lists %u, which is not the next vgroup member (%s)", (int)m.ref, all[q], when));
+            }
+            for (intn st = 0; st <= na && st < 64; st++) {
+                intn cnt = Vgetvgroups(vkey, (uintn)st, 0, NULL);
+                if (cnt != na - st)
+                    ctx.fail("member-mismatch", "member-mismatch:getvgroups-count", strf("Vgetvgroups(vgroup %d, start %d) counts %d, the whole list has %d (%s)", (int)m.ref, (int)st, (int)cnt, (int)na, when));
+                if (st == na)
+                    break;
+                intn want_n = st % 2 ? 1 : 64;
+                intn got    = Vgetvgroups(vkey, (uintn)st, (uintn)want_n, win);
+                intn exp    = std::min<intn>(want_n, na - st);
+                if (got != exp || memcmp(win, all + st, (size_t)exp * sizeof(uint16)) != 0)
+                    ctx.fail("member-mismatch", "member-mismatch:getvgroups-window",
+                             strf("Vgetvgroups(vgroup %d, start %d, n %d) returns %d entries beginning with %u; entries %d.. of the whole list begin with %u (%s)", (int)m.ref, (int)st,
+                                  (int)want_n, (int)got, got > 0 ? win[0] : 0, (int)st, all[st], when));
+                if (st > 0)
+                    ctx.probe("getvgroups-window");
+            }
+        }
         for (auto &tr : m.mem) {
             if (tr.first == DFTAG_VG && Visvg(vkey, tr.second) != TRUE)
                 ctx.fail("member-mismatch", "member-mismatch:isvg", strf("Visvg(%d) is false for a vgroup member (%s)", (int)tr.second, when));
